@@ -198,11 +198,46 @@ impl Src {
             _ => self.wide(65536) as u16,
         };
         let b = self.bytes(16);
+        // address classes an encoder might be tempted to normalise: IPv4-mapped / IPv4-compatible IPv6,
+        // unspecified, loopback, link-local, multicast, all-ones
+        let class = self.pick(10);
         match family {
-            Family::V4 => SocketAddr::new(IpAddr::V4(Ipv4Addr::new(b[0], b[1], b[2], b[3])), port),
+            Family::V4 => {
+                let ip = match class {
+                    0 => Ipv4Addr::UNSPECIFIED,
+                    1 => Ipv4Addr::BROADCAST,
+                    2 => Ipv4Addr::LOCALHOST,
+                    _ => Ipv4Addr::new(b[0], b[1], b[2], b[3]),
+                };
+                SocketAddr::new(IpAddr::V4(ip), port)
+            }
             Family::V6 => {
                 let mut o = [0u8; 16];
                 o.copy_from_slice(&b);
+                match class {
+                    0 | 1 => {
+                        // ::ffff:a.b.c.d
+                        o[..10].fill(0);
+                        o[10] = 0xff;
+                        o[11] = 0xff;
+                    }
+                    2 => o[..12].fill(0), // ::a.b.c.d
+                    3 => o = [0; 16],
+                    4 => {
+                        o = [0; 16];
+                        o[15] = 1;
+                    }
+                    5 => {
+                        o[0] = 0xfe;
+                        o[1] = 0x80;
+                    }
+                    6 => {
+                        o[0] = 0xff;
+                        o[1] = 0x02;
+                    }
+                    7 => o = [0xff; 16],
+                    _ => {}
+                }
                 SocketAddr::new(IpAddr::V6(Ipv6Addr::from(o)), port)
             }
         }
